@@ -144,7 +144,8 @@ def quantile(array, quant, epsilon=1.0, bounds=None, axis=None, keepdims=False, 
     mech = Exponential(epsilon=epsilon, sensitivity=1, utility=list(-np.abs(np.arange(0, k + 1) - quant * k)),
                        measure=list(interval_sizes), random_state=random_state)
     idx = mech.randomise()
-    output = random_state.random() * (array[idx+1] - array[idx]) + array[idx]
+    # Draw from the mechanism's generator, which is the OS's secure generator unless `random_state` was given
+    output = mech._rng.random() * (array[idx+1] - array[idx]) + array[idx]  # pylint: disable=protected-access
 
     accountant.spend(epsilon, 0)
 
